@@ -290,6 +290,7 @@ func runC15(c *run.Ctx) {
 			}
 		}
 	}
+	c15Excluded(c)
 	c15Ggqlgen(c)
 }
 
@@ -449,4 +450,70 @@ func c15DirUsesDiff(ta, tb ggql.Type) string {
 		}
 	}
 	return ""
+}
+
+// c15Excluded: roots made with NewRoot's exclude option ("Time", "Int64") have no such built-in scalar; the application's
+// document defines its own scalar of that name (with a description and a directive). The printed text must define it
+// again for a fresh root made the same way - and on roots that do have the built-in scalar the same directive arrives by
+// extension and must survive as well.
+func c15Excluded(c *run.Ctx) {
+	for vi, ex := range [][]string{{"Time", "Int64"}, {"Time"}, {"Int64"}, {}} {
+		has := func(n string) bool {
+			for _, e := range ex {
+				if e == n {
+					return true
+				}
+			}
+			return false
+		}
+		doc := "directive @zzTag(n: Int = 1) on SCALAR\n\ntype Query {\n  t: Time\n  i: Int64\n  a(x: Time, y: [Int64!]): Int\n}\n"
+		for _, n := range []string{"Time", "Int64"} {
+			if has(n) {
+				doc += fmt.Sprintf("\n\"my own %s\"\nscalar %s @zzTag(n: %d)\n", n, n, 2+len(n))
+			} else {
+				doc += fmt.Sprintf("\nextend scalar %s @zzTag(n: %d)\n", n, 2+len(n))
+			}
+		}
+		mk := func() *ggql.Root {
+			return ggql.NewRoot(&c15Root{Query: &c15Obj{}, Mutation: &c15Obj{}, Subscription: &c15Obj{}}, ex...)
+		}
+		a := mk()
+		var err error
+		if pv, _ := run.Protect(func() { err = a.ParseString(doc) }); pv != nil || err != nil {
+			c.Count("generated_schema_not_accepted(left_to_C13)", 1)
+			continue
+		}
+		var p1, p2 string
+		var berr error
+		b := mk()
+		pv, _ := run.Protect(func() {
+			p1 = a.SDL(false, true)
+			berr = b.ParseString(p1)
+			if berr == nil {
+				p2 = b.SDL(false, true)
+			}
+		})
+		c.Eval(fmt.Sprintf("excluded|%d", vi), true)
+		c.Count("prints_root", 1)
+		rep := func(kind, diag string) {
+			c.Violation(kind, map[string]interface{}{"excluded_built_in_scalars": ex, "sdl": doc, "printed": p1, "diag": diag})
+		}
+		switch {
+		case pv != nil:
+			rep("c15-print-panic", fmt.Sprint(pv))
+		case berr != nil:
+			rep("c15-reparse-rejected", berr.Error())
+		case p1 != p2:
+			rep("c15-not-idempotent", firstDiff(p1, p2))
+		default:
+			for _, n := range []string{"Time", "Int64"} {
+				ta, tb := a.GetType(n), b.GetType(n)
+				if d := c15DirUsesDiff(ta, tb); d != "" {
+					rep("c15-schema-changed", "scalar "+n+" "+d)
+				} else if ta != nil && tb != nil && has(n) && ta.Description() != tb.Description() {
+					rep("c15-schema-changed", fmt.Sprintf("scalar %s: description %q in the root that printed, %q in the root that read the text", n, ta.Description(), tb.Description()))
+				}
+			}
+		}
+	}
 }
